@@ -581,7 +581,55 @@ class _File:
         recs = FS[self.name]
         if len(recs) == 1 and recs[0][0] in ("text", "json"):
             return recs[0][1] if recs[0][0] == "text" else JsonText(recs[0][1])
+        if recs and all(r[0] == "row" for r in recs):
+            return FileText(self.name)
         raise Unsupported("read() of a structured in-memory file")
+
+    def readlines(self):
+        return self.read().splitlines(keepends=True)
+
+    def __iter__(self):
+        return iter(self.readlines())
+
+
+# characters str.splitlines() breaks at that the csv writer does NOT quote (it quotes cells containing \r or \n)
+_UNQUOTED_BREAKS = "\x0b\x0c\x1c\x1d\x1e\x85\u2028\u2029"
+
+
+class FileText:
+    """The text of a delimiter-separated in-memory file, as returned by read()."""
+
+    def __init__(self, name):
+        self.name = name
+
+    def splitlines(self, keepends=False):
+        """One Line per written row - unless a cell contains a character that str.splitlines() treats as a line break
+        although the csv writer left it unquoted: then the row is cut and what a csv reader makes of it is unspecified."""
+        out = []
+        brk = z3.Concat(sc.ANYSTR, z3.Union(*[z3.Re(c) for c in _UNQUOTED_BREAKS]), sc.ANYSTR)
+        for r in FS[self.name]:
+            cells = list(r[1])
+            cut = False
+            for c in cells:
+                if isinstance(c, SymStr):
+                    if E().branch(z3.InRe(c.e, brk)):
+                        cut = True
+                elif any(ch in c for ch in _UNQUOTED_BREAKS):
+                    cut = True
+            if cut:
+                out.append(Line([SymStr(E().fresh_str("csvcell")) for _ in cells], r))
+                out.append(Line([SymStr(E().fresh_str("csvcell"))], r))
+            else:
+                out.append(Line(cells, r))
+        return out
+
+    def __sym_str__(self):
+        raise Unsupported("text of a structured in-memory file used as a string")
+
+
+class Line:
+    def __init__(self, cells, rec):
+        self.cells, self.rec = cells, rec
 
 
 def stub_open(name, mode="r", *a, **k):
@@ -617,6 +665,13 @@ class StubPath:
     @property
     def name(self):
         return self.p.rsplit("/", 1)[-1]
+
+    def stat(self):
+        """The in-memory table has no clock: two versions of a file may have the same timestamp and size (as they can on
+        a real file system), so code that identifies file contents by them sees equal values."""
+        if self.p not in FS:
+            raise FileNotFoundError(self.p)
+        return types.SimpleNamespace(st_mtime_ns=0, st_mtime=0.0, st_size=0, st_ino=0, st_ctime_ns=0)
 
     def write_text(self, x, *a, **k):
         FS[self.p] = []
@@ -722,6 +777,15 @@ class _Reader:
         if kw.get("quotechar", '"') != '"' or kw.get("escapechar") or kw.get("dialect", "excel") != "excel":
             raise Unsupported("csv dialect options beyond delimiter / quoting")
         self.rows = []
+        if isinstance(f, (list, tuple)) and all(isinstance(x, Line) for x in f):
+            for ln in f:
+                wdelim = ln.rec[2] if len(ln.rec) > 2 else delimiter
+                if wdelim != delimiter:
+                    raise Unsupported("csv lines read with a delimiter other than the one they were written with")
+                self.rows.append(list(ln.cells))
+            self.i = 0
+            self.line_num = 0
+            return
         for r in FS[f.name]:
             if r[0] == "line":
                 # a line produced without the csv module: it parses back into the same cells only if no cell needs quoting
